@@ -81,7 +81,7 @@ class C19(PureCheck):
             "formatting, same display/different run boundaries, empty runs, explicit False) plus every plain str of the pool's "
             "texts and plain strs carrying escape sequences (the value's own terminal string and 6 other spellings of it), values derived from an already rendered styled value by switching the style off, and pieces cut out of an already rendered value (texts spelled like a fragment of their own escape sequence included); values whose terminal string has about 1024 / 1100 / 2500 characters against the equal str and near misses; all ordered pairs (quick: a sampled pool of 150 -> all pairs) with ==, !=, reversed ==, hash, set and dict "
             "membership recorded together with both terminal strings; repr round trip (eval in a namespace holding only the "
-            "fmtfuncs names) for every layout with >=1 run, texts with quotes/escapes and run boundaries right before a combining / zero-width character. distinct_nontrivial = distinct pairs "
+            "fmtfuncs names) for every layout with >=1 run, sums of two values shown before they were added (every split point, zero-run operands included), texts with quotes/escapes and run boundaries right before a combining / zero-width character. distinct_nontrivial = distinct pairs "
             "whose texts are equal but run lists differ, or repr cases with >=1 formatted run")
     exhaustive = {"quick": False, "thorough": False}
 
@@ -168,6 +168,12 @@ class C19(PureCheck):
                 yield {"op": "repr", "f": [[[99, 101], list(a1)], [[mark, 33], list(a2)]]}
                 yield {"op": "repr", "f": [[[101], list(a1)], [[mark], list(a2)], [[120], list(a1)]]}
                 yield {"op": "repr", "f": [[[mark, 97], list(a1)], [[mark, mark], list(a2)]]}
+        # sums of two values that were both shown before the addition, every split point (so also a zero-run operand on
+        # either side)
+        for l in reprpool[::5] + [[[[97], list(ATTS[1])]], [[[97], list(ATTS[1])], [[98, 99], list(ATTS[2])], [[100], list(fmtlib.PLAIN)]]]:
+            for j in range(len(l) + 1):
+                for seen in (1, 0):
+                    yield {"op": "repr", "f": l, "plus": j, "seen": seen}
         for t in REPR_TEXTS:
             for a in ATTS + [[8, 1, 2, 2, 2, 2, 2, 2]]:
                 yield {"op": "repr", "f": [[[ord(c) for c in t], a]]}
@@ -211,7 +217,17 @@ class C19(PureCheck):
             ev["strx"] = enc.enc_text(term(x))
             ev["stry"] = enc.enc_text(term(y))
         else:
-            f = enc.build_fmtstr(inp["f"])
+            if inp.get("plus") is not None:
+                # the value is the sum of two values (one of them possibly without any run) that were both shown -
+                # repr() and str() taken - before they were added
+                j = inp["plus"]
+                left, right = enc.build_fmtstr(inp["f"][:j]), enc.build_fmtstr(inp["f"][j:])
+                if inp.get("seen"):
+                    repr(left), str(left), repr(right), str(right)
+                f = left + right
+                ev["f"] = enc.enc_fmtstr(f)
+            else:
+                f = enc.build_fmtstr(inp["f"])
             ns = fmtfuncs_ns()
             src = repr(f)
             ev["src"] = enc.enc_text(src)
